@@ -930,20 +930,23 @@ Qed.
 
 Lemma metax_accept n e :
   x_err (fst (metax_validate n e)) = false ->
-  negb (Qle_bool (mx_weight (snd (metax_validate n e))) Q0) = true /\ mx_sigmas (snd (metax_validate n e)) = n.
+  negb (Qle_bool (mx_weight (snd (metax_validate n e))) Q0) = true /\ mx_sigmas (snd (metax_validate n e)) = n /\
+  forallb (Qltb Q0) (mx_widths (snd (metax_validate n e))) = true.
 Proof.
-  unfold metax_validate, Qltb.
+  unfold metax_validate.
   destruct (ereal e "hillWeight" Q0) as [hw p0].
   destruct (eint TSize e "newHillFrequency" 1000) as [nhf pf1].
   destruct (eint TSize e "gridsUpdateFrequency" nhf) as [guf pf2].
   destruct (getV (elist e "gaussianSigmas") []) as [sig es].
   destruct (ereal e "hillWidth" Q0) as [hwid p1].
-  destruct (Nat.eqb (if negb (Qle_bool hwid Q0) then n else List.length sig) n) eqn:En; cbn [negb];
+  destruct (Nat.eqb (if Qltb Q0 hwid then n else List.length sig) n) eqn:En; cbn [negb];
+    [| cbn [fst]; rewrite x_err_flag_input; discriminate].
+  destruct (forallb (Qltb Q0) (if Qltb Q0 hwid then [] else sig)) eqn:Ew; cbn [negb];
     [| cbn [fst]; rewrite x_err_flag_input; discriminate].
   destruct (ereal e "biasTemperature" (-1 # 1)) as [bt p2].
-  cbn [fst snd mx_weight mx_sigmas]. rewrite !x_err_flag_input. cbn [x_err no_errs]. intro H.
-  split; [| apply Nat.eqb_eq; exact En].
-  destruct (Qle_bool hw Q0); [orb_simpl H; discriminate H | reflexivity].
+  cbn [fst snd mx_weight mx_sigmas mx_widths]. rewrite !x_err_flag_input. cbn [x_err no_errs]. intro H.
+  split; [| split; [apply Nat.eqb_eq; exact En | exact Ew]].
+  unfold Qltb in H. destruct (Qle_bool hw Q0); [orb_simpl H; discriminate H | reflexivity].
 Qed.
 
 Lemma abfshared_accept rof e :
@@ -972,7 +975,7 @@ Qed.
 Lemma kmoving_accept rof e :
   x_err (fst (kmoving_validate rof e)) = false ->
   let s := snd (kmoving_validate rof e) in
-  Qle_bool Q0 (kx_k s) = true /\ (kx_changing s = true -> kx_nsteps s <> 0).
+  Qle_bool Q0 (kx_k s) = true /\ (kx_changing s = true -> kx_nsteps s <> 0) /\ Qle_bool Q0 (kx_exp s) = true.
 Proof.
   unfold kmoving_validate, Qltb.
   destruct (ereal e "forceConstant" (1 # 1)) as [k p0].
@@ -980,16 +983,18 @@ Proof.
   destruct (eint TStep e "targetNumSteps" 0) as [ns p2].
   destruct (eint TInt e "targetNumStages" 0) as [ng p3].
   destruct (getV (elist e "lambdaSchedule") []) as [sched esch].
+  destruct (ereal e "lambdaExponent" (1 # 1)) as [lx p4].
   assert (Hk : x_err (flag_input (p0 || negb (Qle_bool Q0 k)) no_errs) = false -> Qle_bool Q0 k = true).
   { intros H. rewrite x_err_flag_input in H. cbn [x_err no_errs] in H. destruct (Qle_bool Q0 k); [reflexivity | orb_simpl H; discriminate H]. }
   destruct (egiven e "targetForceConstant" && eflag e "decoupling" false) eqn:E1; [cbn [fst]; rewrite x_err_flag_input; discriminate|].
   destruct (negb (eflag e "decoupling" false || egiven e "targetForceConstant")) eqn:E2.
-  - cbn [fst snd kx_k kx_changing]. rewrite x_err_flag_input. intro H. apply orb_false_iff in H. destruct H as [_ H].
-    split; [apply (Hk H) | discriminate].
+  - cbn [fst snd kx_k kx_changing kx_exp]. rewrite x_err_flag_input. intro H. apply orb_false_iff in H. destruct H as [_ H].
+    split; [apply (Hk H) | split; [discriminate | reflexivity]].
   - destruct (ns =? 0) eqn:En; [cbn [fst]; rewrite x_err_flag_input; discriminate|].
     destruct (elist_given e "lambdaSchedule" && (0 <? ng)) eqn:E3; [cbn [fst]; rewrite x_err_flag_input; discriminate|].
-    cbn [fst snd kx_k kx_changing kx_nsteps]. rewrite x_err_flag_input. intro H. apply orb_false_iff in H. destruct H as [_ H].
-    split; [apply (Hk H) | intros _; b2p; assumption].
+    cbn [fst snd kx_k kx_changing kx_nsteps kx_exp]. rewrite x_err_flag_input. intro H. apply orb_false_iff in H. destruct H as [Hx H].
+    split; [apply (Hk H) | split; [intros _; b2p; assumption |]].
+    destruct (Qle_bool Q0 lx); [reflexivity | orb_simpl Hx; discriminate Hx].
 Qed.
 
 Lemma getV_presized_length n ts v e : (0 < n)%nat -> getV (Some ts) (repeat Q0 n) = (v, e) -> List.length v = n.
@@ -1001,14 +1006,14 @@ Proof.
 Qed.
 
 (* harmonicWalls: accepted => at least one list of walls; every list that is given has one wall per variable; with both
-   lists every lower wall is below its upper wall (and not within 1e-6 of it) and the two constants are non-zero *)
-Lemma walls_accept n e : (0 < n)%nat ->
-  x_err (fst (walls_validate n e)) = false ->
-  let s := snd (walls_validate n e) in
+   lists every lower wall is below its upper wall (and not within 1e-6 widths of it) and the two constants are non-zero *)
+Lemma walls_accept ws n e : (0 < n)%nat ->
+  x_err (fst (walls_validate ws n e)) = false ->
+  let s := snd (walls_validate ws n e) in
   (wx_lower s <> [] \/ wx_upper s <> []) /\
   (wx_lower s <> [] -> List.length (wx_lower s) = n) /\ (wx_upper s <> [] -> List.length (wx_upper s) = n) /\
   (wx_lower s <> [] -> wx_upper s <> [] ->
-     pairwise_lt (wx_lower s) (wx_upper s) = true /\ pairwise_apart (wx_lower s) (wx_upper s) = true /\
+     pairwise_lt (wx_lower s) (wx_upper s) = true /\ pairwise_apart ws (wx_lower s) (wx_upper s) = true /\
      Qeq_bool (wx_lk s * wx_uk s) Q0 = false).
 Proof.
   intro Hn. unfold walls_validate.
@@ -1032,7 +1037,7 @@ Proof.
     split; [left; apply Hnz; exact E1|]. split; [exact Hll|]. split; [exact Hlu|].
     intros _ Hne. exfalso. apply Hne. apply Hz. exact E2.
   - destruct (ereal e "lowerWallConstant" fk) as [lk p1]. destruct (ereal e "upperWallConstant" fk) as [uk p2].
-    destruct (negb (pairwise_lt lw uw) || negb (pairwise_apart lw uw)) eqn:Ep; [cbn [fst]; rewrite x_err_flag_input; discriminate|].
+    destruct (negb (pairwise_lt lw uw) || negb (pairwise_apart ws lw uw)) eqn:Ep; [cbn [fst]; rewrite x_err_flag_input; discriminate|].
     destruct (Qeq_bool (lk * uk) Q0) eqn:Ek; [cbn [fst]; rewrite x_err_flag_input; discriminate|].
     cbn [fst snd wx_lower wx_upper wx_lk wx_uk]. intros _.
     split; [left; apply Hnz; exact E1|]. split; [exact Hll|]. split; [exact Hlu|]. intros _ _.
@@ -1411,12 +1416,47 @@ Qed.
 Lemma reset6_wf s : q_crash s = false -> modst_wf (reset6 s).
 Proof. intro C. repeat split; cbn; try assumption; try reflexivity. intros g o []. Qed.
 
-(* any session (configurations and resets) from a well-formed state stays well-formed: no crash *)
-Lemma run_session6_wf cfgs : forall s, modst_wf s -> modst_wf (run_session6 IvRollback true cfgs s).
+Lemma delete_bias6_same n s :
+  q_cvs (delete_bias6 n s) = q_cvs s /\ q_named (delete_bias6 n s) = q_named s /\ q_reg (delete_bias6 n s) = q_reg s /\
+  q_crash (delete_bias6 n s) = q_crash s.
+Proof. unfold delete_bias6. destruct (find _ (q_biases s)); cbn; repeat split. Qed.
+
+Lemma delete_biases_same ns : forall s,
+  let s1 := fold_left (fun st n => delete_bias6 n st) ns s in
+  q_cvs s1 = q_cvs s /\ q_named s1 = q_named s /\ q_reg s1 = q_reg s /\ q_crash s1 = q_crash s.
 Proof.
-  induction cfgs as [|[c|] r IH]; intros s W; simpl; [exact W | |].
-  - apply IH. exact (ex_wf _ _ (parse_config6_extends c s W)).
-  - apply IH. apply reset6_wf. exact (proj1 (proj2 W)).
+  induction ns as [|n r IH]; intro s; simpl; [repeat split|].
+  destruct (IH (delete_bias6 n s)) as (A & B & C & D). destruct (delete_bias6_same n s) as (A' & B' & C' & D').
+  repeat split; congruence.
+Qed.
+
+Lemma delete_bias6_wf n s : modst_wf s -> modst_wf (delete_bias6 n s).
+Proof.
+  intros (W & C & N). destruct (delete_bias6_same n s) as (A & B & R & D).
+  unfold modst_wf. rewrite A, B, R, D. repeat split; assumption.
+Qed.
+
+Lemma delete_cv6_wf c s : modst_wf s -> modst_wf (delete_cv6 c s).
+Proof.
+  intros (W & C & N). unfold delete_cv6.
+  destruct (negb (existsb (String.eqb c) (q_cvs s))); [repeat split; assumption|].
+  set (ns := rev (map (fun b => fst (fst b)) (filter (uses_cv c) (q_biases s)))).
+  destruct (delete_biases_same ns s) as (A & B & R & D). fold ns.
+  unfold modst_wf; cbn. rewrite A, B, R, D. repeat split; try assumption.
+  intros g o H. apply filter_In in H. destruct H as [H Hne]. cbn in Hne.
+  apply filter_In. split; [eapply N; exact H | exact Hne].
+Qed.
+
+(* any session (configurations, resets, deletions of biases and variables) from a well-formed state stays well-formed:
+   no NULL pointer is dereferenced, every named group is owned by a variable that still exists *)
+Lemma run_session6_wf ops : forall s, modst_wf s -> modst_wf (run_session6 IvRollback true ops s).
+Proof.
+  induction ops as [|o r IH]; intros s W; simpl; [exact W|].
+  apply IH. destruct o as [c| |n|n]; cbn.
+  - exact (ex_wf _ _ (parse_config6_extends c s W)).
+  - apply reset6_wf. exact (proj1 (proj2 W)).
+  - apply delete_bias6_wf. exact W.
+  - apply delete_cv6_wf. exact W.
 Qed.
 
 (* what a configuration rejected in parse_global_params (a malformed or missing index file, a module-level keyword
